@@ -1,0 +1,64 @@
+//go:build verif
+
+package vm
+
+import (
+	"unsafe"
+
+	"github.com/goghcrow/yae/compiler"
+	"github.com/goghcrow/yae/parser/ast"
+	"github.com/goghcrow/yae/val"
+)
+
+// Hooks for the verification harness (/verif). Compiled only with -tags verif.
+
+// CompileCallThreaded is vm.Compile with the call-threaded dispatch loop.
+func CompileCallThreaded(expr ast.Expr, env1 *val.Env) compiler.Closure {
+	bytecode := NewCompile().Compile(expr, env1)
+	return func(env *val.Env) *val.Val {
+		v := NewVM()
+		v.interp = callThreading
+		return v.Interp(bytecode, env)
+	}
+}
+
+// CodeOf compiles expr and exports the emitted bytes and the (shared) constant pool.
+func CodeOf(expr ast.Expr, env1 *val.Env) (code []byte, consts []interface{}) {
+	b := NewCompile().Compile(expr, env1)
+	return append([]byte{}, b.code...), append([]interface{}{}, b.cp.data...)
+}
+
+// ThunkBody returns the code of a deferred argument; v must be a constant that an OP_CONST
+// of a lazy call refers to (a thunkVal). Thunk bodies share the constant pool of their unit.
+func ThunkBody(v *val.Val) []byte {
+	t := (*thunkVal)(unsafe.Pointer(v))
+	return append([]byte{}, t.bytecode.code...)
+}
+
+// OpcodeNames lists the opcode names in numeric order.
+func OpcodeNames() []string {
+	xs := make([]string, 0, int(_END_))
+	for o := opcode(0); o < _END_; o++ {
+		xs = append(xs, o.String())
+	}
+	return xs
+}
+
+// IntrinsicTables exports the function→opcode intrinsic map (call by value) and the
+// call-by-need intrinsics.
+func IntrinsicTables() (byValue map[*val.Val]string, byNeed []*val.Val) {
+	byValue = map[*val.Val]string{}
+	for f, op := range intrinsicsCallByValue {
+		byValue[f] = op.String()
+	}
+	for f := range intrinsicsCallByNeed {
+		byNeed = append(byNeed, f)
+	}
+	return
+}
+
+const (
+	StackInitHook = stackInit
+	StackGrowHook = stackGrow
+	LimitHook     = limit
+)
